@@ -609,10 +609,16 @@ def run(prop, tier, seed):
             report(out, prop, rcfg_, seed * 31 + j, label, lines, divs, seen_all)
     out.notes["real_calls_by_action"] = actcount
     out.notes["real_results"] = rescount
-    if prop == "C02":
-        # DAO transfers and burns (the other explicit movers of C02) are governance transactions: Gov.tla
+    if prop in ("C02", "C11"):
+        # DAO transfers and burns (the other explicit movers of C02) are governance transactions, and C11's
+        # "a rejected transaction leaves no trace but its fee" covers every message of the bundled modules: Gov.tla
         from props import gov
-        gov.stage(out, "C02", tier, seed)
+        rr = out.notes.pop("real_results", None)     # (the governance stage keeps its own counts under the same names)
+        rs = out.notes.pop("real_steps_validated", 0)
+        gov.stage(out, prop, tier, seed)
+        out.notes["gov_real_results"] = out.notes.pop("real_results", None)
+        out.notes["real_results"] = rr
+        out.notes["real_steps_validated"] = rs + out.notes.get("real_steps_validated", 0)
     return out
 
 
@@ -621,6 +627,9 @@ def replay(prop, path):
     with open(path) as fh:
         v = json.load(fh)["violation"]
     rp = v["replay"]
+    if "consts" not in rp:    # found by the governance stage (Gov.tla)
+        from props import gov
+        return gov.replay(prop, path)
     common.build_harness(["posdrv"])
     c = {}
     for k, val in rp["consts"].items():
